@@ -82,6 +82,10 @@ func treeDiff(before, after interface{}, loc string, out *[]diffEntry) {
 	}
 	bl, blok := before.([]interface{})
 	al, alok := after.([]interface{})
+	if blok && alok && (bl == nil) != (al == nil) {
+		*out = append(*out, diffEntry{loc, "changed", before, after})
+		return
+	}
 	if blok && alok && len(bl) == len(al) {
 		for i := range bl {
 			treeDiff(bl[i], al[i], loc+"/#"+strconv.Itoa(i), out)
@@ -341,6 +345,31 @@ func c11Run(c *Ctx) {
 			}
 		}
 	})
+	// values of the named type mxj.Map nested in a Map (a caller may build that): the path functions do not
+	// walk through them, so every operation below one must fail without touching anything
+	typed := []func() map[string]interface{}{
+		func() map[string]interface{} { return map[string]interface{}{"a": mxj.Map{"k": "v"}} },
+		func() map[string]interface{} {
+			return map[string]interface{}{"a": mxj.Map{"ab": map[string]interface{}{"k": "v"}, "k": "w"}, "k": "v"}
+		},
+		func() map[string]interface{} {
+			return map[string]interface{}{"a": map[string]interface{}{"ab": mxj.Map{"k": "v"}}}
+		},
+	}
+	for _, mk := range typed {
+		for _, p := range paths {
+			for _, o := range ops {
+				if !c.Mine() {
+					continue
+				}
+				c.S.States++
+				c.S.Evaluations++
+				c11Check(c, mk(), o.op, p, o.name)
+				c.S.Schedules++
+				c.S.Validated++
+			}
+		}
+	}
 	// operation sequences on one Map (states other than freshly built ones): every sequence of 3 operations
 	// from a reduced alphabet on every nested-map template, the oracle applied at every step
 	gs := newGen(GenP{Keys: []string{"a", "ab", "k"}, MaxList: 0, MaxKeys: 2, EmptyMap: true, Leaves: []interface{}{"v"}})
